@@ -178,3 +178,174 @@ def build_for(pid, tier):
                        descr="replica update ledger step: every update is applied to its partition once; the reported power / pledge deltas and each deadline's memos are the sums of the partitions' deltas; initial pledge moves by the pledge delta, covered by unlocked balance",
                        bounds='%d deadline(s) with %s update(s); CUTS: network queries, deadline / partition / sector-table loading and saving, update_existing_sector_info, Partition::replace_sectors (arbitrary recorded deltas)' % (len(sh), sh),
                        max_paths=100000, wall_s=600) for sh in shapes]
+
+
+# ---- extend_sector_expiration_inner: the roll-up of an extension message ------------------------------------------------------
+# CUTS (declared): deadline / partition / sector loading and saving as above, Sectors::load_sectors (one arbitrary well-formed
+# sector per declaration), extend_sector_committment (arbitrary well-formed new sector or a refusal; its arithmetic and claim rules
+# are C10's miner_ext obligations), Partition::replace_sectors (arbitrary recorded deltas), Deadline::add_expiration_partitions
+# (recorded).  Deadline indices are concrete (the code indexes a 48-slot vector by them and treats all slots alike).
+
+def run_extend_inner(shape, idxs=(3, 7, 11)):
+    """shape: declarations per deadline, e.g. [1], [2], [1, 1]"""
+    def run(E):
+        rt, rtref = new_rt(E)
+        pre = mk_miner_state(E, 0)
+        rt.state = pre['st']
+        E.ctx.assume(rt.balance >= pre['pcd'] + pre['lf'] + pre['ip'])
+        E.ctx.assume(z3.And(rt.epoch >= 0, rt.epoch < 2**40))
+        from . import C13
+        E.ctx.assume(z3.Not(C13.bz(C13.view(E, pre['info'])['pw_some'])))
+        env = E.ctx.env
+        env['balance0'] = rt.balance
+        env['shape'] = shape
+        DL = Fields('actors/miner/src/deadline_state.rs', 'Deadline')
+        SI = Fields('actors/miner/src/types.rs', 'SectorOnChainInfo')
+        VE = Fields('actors/miner/src/lib.rs', 'ValidatedExpirationExtension')
+        EI = Fields('actors/miner/src/lib.rs', 'ExtendExpirationsInner')
+        from mirsym.models_std import DictM
+        decls = []
+        for i, n in enumerate(shape):
+            for j in range(n):
+                ne = E.materialize('i64', 'decl_%d_%d.new_expiration' % (i, j))
+                E.ctx.assume(z3.And(ne.v > rt.epoch, ne.v < 2**40))
+                decls.append(StructV('ValidatedExpirationExtension', {VE['deadline']: IntV(idxs[i], 'u64'), VE['partition']: E.materialize('u64', 'decl_%d_%d.partition' % (i, j)),
+                                                                      VE['sectors']: models_fvm.BitFieldV('decl_%d_%d.sectors' % (i, j)), VE['new_expiration']: ne}))
+        env['decl_epochs'] = [[zv(fget(E, d, VE['new_expiration'], 'i64')) for d in decls if zv(fget(E, d, VE['deadline'], 'u64')) == idxs[i]] for i in range(len(shape))]
+        env['decl_parts'] = [[zv(fget(E, d, VE['partition'], 'u64')) for d in decls if zv(fget(E, d, VE['deadline'], 'u64')) == idxs[i]] for i in range(len(shape))]
+        inner = StructV('ExtendExpirationsInner', {EI['extensions']: VecV(decls, 'Vec<ValidatedExpirationExtension>'),
+                                                   EI['claims']: some(ObjV(DictM('BTreeMap')), 'Option<BTreeMap<u64, (u64, u64)>>')})
+        lz = lambda nm, ty: (lambda E2, c: ok(LazyV(E2.ctx.fresh_name(nm), ty), c.dest_ty))
+        okc = lambda E2, c: ok(UNIT, c.dest_ty)
+        E.cuts['State::load_deadlines'] = lz('deadlines', 'deadlines::Deadlines')
+        E.cuts['State::save_deadlines'] = okc
+        E.cuts['Sectors::load'] = lz('sectors', 'sectors::Sectors')
+        E.cuts['State::quant_spec_for_deadline'] = lambda E2, c: LazyV(E2.ctx.fresh_name('quant'), 'quantize::QuantSpec')
+        loaded, written = env.setdefault('loaded', []), env.setdefault('written', [])
+
+        def cut_load_dl(E2, c):
+            k = len(loaded)
+            lp = (z3.Int('dl%d.live.raw' % k), z3.Int('dl%d.live.qa' % k))
+            fee = z3.Int('dl%d.daily_fee' % k)
+            loaded.append(dict(idx=zv(c.args[2]), live=lp, fee=fee))
+            return ok(StructV('deadline_state::Deadline', {DL['live_power']: _pp(*lp), DL['daily_fee']: BigV(fee)}, lazy='dl%d' % k), c.dest_ty)
+        E.cuts['Deadlines::load_deadline'] = cut_load_dl
+
+        def cut_update_dl(E2, c):
+            dlv = E2.deref(c.args[4])
+            lp = E2.deref(fget(E2, dlv, DL['live_power'], 'PowerPair'))
+            written.append(dict(idx=zv(c.args[3]), live=(big(E2, fget(E2, lp, 0, 'BigInt')), big(E2, fget(E2, lp, 1, 'BigInt'))), fee=big(E2, fget(E2, dlv, DL['daily_fee'], TOKEN)),
+                                resched=list(env.get('resched_pending', []))))
+            env['resched_pending'] = []
+            return ok(UNIT, c.dest_ty)
+        E.cuts['Deadlines::update_deadline'] = cut_update_dl
+        E.cuts['Deadline::partitions_amt'] = lambda E2, c: ok(OpaqueV('partitions', E2.ctx.fresh_name('parts')), c.dest_ty)
+        gets, sets = env.setdefault('gets', []), env.setdefault('sets', [])
+
+        def cut_get(E2, c):
+            gets.append(zv(c.args[1]))
+            p = Cell(LazyV(E2.ctx.fresh_name('partition'), 'partition_state::Partition'), 'p')
+            return ok(some(RefV(p, ()), 'Option<&Partition>'), c.dest_ty)
+
+        def cut_set(E2, c):
+            sets.append(zv(c.args[1]))
+            return ok(UNIT, c.dest_ty)
+        for pre_ in ('Amt::', 'Array::', 'AmtImpl::'):
+            E.cuts[pre_ + 'get'] = cut_get
+            E.cuts[pre_ + 'set'] = cut_set
+            E.cuts[pre_ + 'flush'] = lambda E2, c: ok(E2.materialize(CID, E2.ctx.fresh_name('flushed')), c.dest_ty)
+
+        def wf_sector(E2, nm):
+            sec = StructV('types::SectorOnChainInfo', {}, lazy=nm)
+            g = lambda f, ty: fget(E2, sec, SI[f], ty)
+            E2.ctx.assume(z3.And(big(E2, g('deal_weight', 'BigInt')) >= 0, big(E2, g('verified_deal_weight', 'BigInt')) >= 0,
+                                 g('power_base_epoch', 'i64').v >= 0, g('power_base_epoch', 'i64').v <= rt.epoch, g('expiration', 'i64').v > rt.epoch,
+                                 g('expiration', 'i64').v < 2**40, big(E2, g('initial_pledge', TOKEN)) >= 0))
+            return sec
+        E.cuts['Sectors::load_sectors'] = lambda E2, c: ok(VecV([wf_sector(E2, E2.ctx.fresh_name('old_sector'))], 'Vec<SectorOnChainInfo>'), c.dest_ty)
+
+        def cut_extend(E2, c):
+            if E2.ctx.branch(E2.ctx.fresh_bool('extension_allowed')):
+                return ok(wf_sector(E2, E2.ctx.fresh_name('new_sector')), c.dest_ty)
+            return err(models_fvm.actor_error(E2, 16), c.dest_ty)
+        E.cuts['extend_sector_committment'] = cut_extend
+        stored = env.setdefault('stored', [])
+
+        def cut_store(E2, c):
+            stored.append(len(E2.deref(c.args[1]).items))
+            return ok(UNIT, c.dest_ty)
+        E.cuts['Sectors::store'] = cut_store
+        repl = env.setdefault('repl', [])
+
+        def cut_replace(E2, c):
+            k = len(repl)
+            pd = (z3.Int('r%d.power.raw' % k), z3.Int('r%d.power.qa' % k))
+            pl, fe = z3.Int('r%d.pledge' % k), z3.Int('r%d.fee' % k)
+            repl.append(dict(power=pd, pledge=pl, fee=fe, after_loads=len(loaded)))
+            return ok(StructV('tuple', {0: _pp(*pd), 1: BigV(pl), 2: BigV(fe)}), c.dest_ty)
+        E.cuts['Partition::replace_sectors'] = cut_replace
+
+        def cut_resched(E2, c):
+            ps = [zv(E2.deref(x)) for x in E2.deref(c.args[3]).items]
+            env['resched_pending'] = env.get('resched_pending', []) + [dict(epoch=zv(c.args[2]), parts=ps)]
+            return ok(UNIT, c.dest_ty)
+        E.cuts['Deadline::add_expiration_partitions'] = cut_resched
+        install_bib_cut(E)
+        rt.send_hook = lambda E2, rt2, rec, nm: ('ok', None)
+        fn = find_fn(E, MINER, 'extend_sector_expiration_inner')
+        return E.run_function(fn, [rtref, inner]), rt
+    return run
+
+
+def props_extend_inner(E, res):
+    from .miner_money import classify_sends, pledge_delta_of
+    from .miner_cron import POWER, UPDATE_CLAIMED_POWER
+    env = res.ctx.env
+    rt, pre = env['rt'], env['pre']
+    ctx = res.ctx
+    if res.kind != 'return':
+        return [tagged('ALL', 'no panic (%s)' % str(res.info)[:60], False)]
+    if is_err(res.value):
+        return [bib_prop(res), tagged('C02,C10', 'a refused extension commits nothing and changes no power', z3.BoolVal(rt.commits == 0 and len(rt.sends) == 0))]
+    shape = env['shape']
+    n = sum(shape)
+    repl, loaded, written = env.get('repl', []), env.get('loaded', []), env.get('written', [])
+    P = [tagged('C02,C10', 'every declaration is applied to its partition exactly once', len(repl) == n),
+         tagged('C02,C10', 'the extended sector infos of every declaration are written back', env.get('stored', []) == [1] * n),
+         tagged('C02', 'every deadline with declarations is loaded and written once', len(loaded) == len(shape) and len(written) == len(shape))]
+    tot = (sum(r['power'][0] for r in repl) if repl else 0, sum(r['power'][1] for r in repl) if repl else 0)
+    ups = [s for s in rt.sends if implied(ctx, b_and(s.to.key == POWER, zv(s.method) == UPDATE_CLAIMED_POWER))]
+    if ups:
+        obj = ups[0].params.obj if isinstance(ups[0].params, BlockV) else None
+        if obj is None:
+            P.append(tagged('C02', 'the power update carries typed params', False))
+        else:
+            P.append(tagged('C02,C10', "the miner's claim moves by exactly the sum of the partitions' power deltas (power of dropped claims leaves the claim), in one update",
+                            b_and(len(ups) == 1, big(E, fget(E, obj, 0, 'BigInt')) == tot[0], big(E, fget(E, obj, 1, 'BigInt')) == tot[1])))
+    else:
+        P.append(tagged('C02,C10', 'no power update is sent only when the extension changes no power', z3.And(tot[0] == 0, tot[1] == 0)))
+    if len(loaded) == len(shape) and len(written) == len(shape):
+        for i, cnt in enumerate(shape):
+            mine = [r for r in repl if r['after_loads'] == i + 1]
+            P.append(tagged('C02', "a deadline's live-power memo moves by exactly the power deltas of its own declarations",
+                            z3.And(written[i]['live'][0] == loaded[i]['live'][0] + (sum(r['power'][0] for r in mine) if mine else 0),
+                                   written[i]['live'][1] == loaded[i]['live'][1] + (sum(r['power'][1] for r in mine) if mine else 0))))
+            P.append(tagged('C15', "a deadline's daily-fee memo moves by exactly the fee deltas of its own declarations",
+                            written[i]['fee'] == loaded[i]['fee'] + (sum(r['fee'] for r in mine) if mine else 0)))
+            # expiration schedule: every (new expiration, partition) of the deadline's declarations is entered in its expiration queue
+            res_ = written[i]['resched']
+            for ep, part in zip(env['decl_epochs'][i], env['decl_parts'][i]):
+                hit = any_of([b_and(r['epoch'] == ep, any_of([p == part for p in r['parts']])) for r in res_]) if res_ else False
+                P.append(tagged('C02,C10', "each extended partition is entered in its deadline's expiration queue at the new expiration epoch", hit))
+    led = ledgers(E, rt.state)
+    P.append(tagged('C03', 'an extension moves no collateral', z3.And(led['ip'] == pre['ip'], led['pcd'] == pre['pcd'], led['lf'] == pre['lf'], led['fd'] == pre['fd'], *[s.value == 0 for s in rt.sends])))
+    return P
+
+
+def build_extend_inner(pid, tier):
+    wrap = lambda f: (lambda E, res: for_property(pid, f(E, res)))
+    shapes = [[1], [2], [1, 1]] if tier == 'quick' else [[1], [2], [1, 1], [2, 1]]
+    return [Obligation('miner.extend_sector_expiration_inner[declarations per deadline=%s]' % sh, run_extend_inner(sh), wrap(props_extend_inner),
+                       descr="extension roll-up: every declaration applied once; the claim and each deadline's memos move by the sums of the partitions' deltas; every extended partition is entered in the expiration queue at its new epoch; no collateral moves",
+                       bounds='%d deadline(s) (concrete indices) with %s declaration(s) of one sector each; CUTS: deadline / partition / sector loading, extend_sector_committment (arbitrary well-formed result or refusal), Partition::replace_sectors (arbitrary recorded deltas), add_expiration_partitions (recorded)' % (len(sh), sh),
+                       max_paths=100000, wall_s=600) for sh in shapes]
